@@ -4,7 +4,11 @@ Ingredients
   * theorems: lean/QV/Props/C13.lean — QASM writer/reader round trip on circuit skeletons
     for all well-formed circuits, gate dictionary round trip for all update histories,
     result payload round trip for all reachable results; the reader's name table is a
-    regenerated kernel obligation (lean/QV/Gen/C13_Ob0.lean);
+    regenerated kernel obligation (lean/QV/Gen/C13_Ob0.lean); custom-gate expansion =
+    inlining by substitution (Props/C13b over Model/QasmDef), argument evaluation of
+    parenthesis-free expressions (Props/C13c over Model/QasmExpr), measurement merging and
+    register layout (Props/C13d), operand order per class as a traced kernel obligation
+    (Props/C13e, lean/QV/Gen/C13_Ob1.lean) — suites of tools/props/C13_defs.py;
   * correspondence: the executable models (lean/DriverC13.lean) against the real
     `Circuit.to_qasm` (text, line by line), `Circuit.from_qasm` (skeleton of the imported
     circuit, also on foreign statement lists), `_qibo_gate_name`, `Gate.raw/from_dict`
@@ -1705,9 +1709,13 @@ def run(ctx):
     corr_gate_name(ctx, lab)
     ctx.notes.append("QASM: all labelled classes x boundary parameters x qubit orders; random register layouts; programs vs independent evaluator; "
                      "dict/JSON: every class x {plain, controlled_by, set_parameters, json}; results: 9 kinds x 11 access histories x 3 load paths")
+    ctx.notes.append("reader internals inside the model (C13_defs): custom-gate expansion vs QASMParser.to_circuit (queue structure, flat gates, exact "
+                     "parameter values) on nested / redefined / hijacking / unused-formal / erroneous programs; argument evaluation bit for bit on "
+                     "parenthesis-free expressions; operand order of every labelled class traced into a kernel obligation")
     ctx.assumptions += [
         "float <-> text conversion (str(float), the openqasm3 lexer, python eval) is an oracle: parameters are opaque tokens in the model",
         "openqasm3's parser and numpy's save/load (pickle) are third-party oracles",
+        "custom-gate model: the gate class constructors are oracles (arity via the signature table sent to the driver; a stored gate is cls(*qubits, *args), checked per class by C13_corr_def_storage)",
     ]
     search_gates(ctx, lab, bad_names)
     corr_and_search_layouts(ctx, lab)
